@@ -16,3 +16,7 @@ claim('C04', 'Hypothesis-generated arcs from the centre form and perturbations; 
       'About 40k (quick) / 600k (thorough) arcs covering all flag pairs, too-small/exactly-fitting/generous/negative radii, rotations inside and outside [0,360), eccentricity to 1e3; each checked for end points, radius policy, sweep/large-arc semantics, agreement with an independent reference at 17 parameters, derivatives n=1..6 and Bezier-approximation end points.',
       'Trusts: vp/ref/arc_ref.py; tolerance 1e-7*size (2e-4*size in the degenerate exactly-fitting window) because the library uses acos for angles; KF01 (radii >1e6 x chord) is a recorded finding.',
       'DESIGN.md 2/C04')
+claim('C05', 'Hypothesis-generated paths and boundary-aimed T values; T2t/point/t2T coherence against harness-recomputed arc-length fractions; structural predicates recomputed from end points',
+      '6k (quick) / 150k (thorough) paths x ~15 T values each, including every cumulative fraction and its ulp neighbours, T one and two ulps below 1, and denormal T; T2t must name the segment owning T (either neighbour within 8 ulp), point(T) must equal that segment at t, t2T must invert; iscontinuous/isclosed/continuous_subpaths compared with a direct recomputation.',
+      'Trusts: seg.length() (C06); 8-ulp boundary slack; arcs reproduce their end points only to C04 accuracy.',
+      'DESIGN.md 2/C05')
